@@ -38,11 +38,12 @@ Proof.
   unfold strip, strip_by, lstrip_by. rewrite drop_while_app_all by exact Hws. exact Hv.
 Qed.
 
-Lemma decl_line_facts f n : wf_gfield f ->
+Lemma decl_line_facts_gen f n : name_ok (gf_name f) -> Forall (fun c => is_blank_tab c = true) (gf_gap f) ->
+  strip (gf_first f) = gf_first f ->
   is_decl (decl_text f) = true /\ is_blank (decl_text f) = false /\ is_cont (decl_text f) = false /\
   from_line (mkLine n (decl_text f)) = Some (mkField (expected_name (gf_name f)) [mkLine n (gf_first f)]).
 Proof.
-  intros (Hn & Hgap & Hfs & _ & _ & _). unfold decl_text.
+  intros Hn Hgap Hfs. unfold decl_text.
   destruct (gf_name f) as [|c nm] eqn:En; [contradiction|]. destruct Hn as [Hc Hall]. rewrite <- En in *.
   assert (Hnc : Forall (fun x => is_name_char x = true) (gf_name f)).
   { eapply Forall_impl; [|exact Hall]. intros x Hx. now apply alnum_name_char. }
@@ -67,6 +68,11 @@ Proof.
     destruct (lower_ascii (gf_name f)) as [|x l] eqn:El; [rewrite En in El; discriminate|]. rewrite <- El.
     unfold expected_name. rewrite (gap_strip _ _ Hgap Hfs). reflexivity.
 Qed.
+
+Lemma decl_line_facts f n : wf_gfield f ->
+  is_decl (decl_text f) = true /\ is_blank (decl_text f) = false /\ is_cont (decl_text f) = false /\
+  from_line (mkLine n (decl_text f)) = Some (mkField (expected_name (gf_name f)) [mkLine n (gf_first f)]).
+Proof. intros (Hn & Hgap & Hfs & _). now apply decl_line_facts_gen. Qed.
 
 (* ---------- fields, paragraphs, separators ---------- *)
 
